@@ -16,6 +16,8 @@ CONSTANTS
  MaxMergeInputs = 2
  AsyncRelease = FALSE
   WithMergeFail = TRUE
+ BuilderBase = FALSE
+ CopySchedById = FALSE
  MaxOpens = 2
 CONSTRAINT Bound
 INVARIANTS RootIsReplay UniqueLive HeldAreReplays EveryBoltIsAState Durable NewestLoads BoltFilesOnDisk RootFilesOnDisk RootFilesProtected NoOrphansWhenQuiescent RollbackOK
